@@ -370,6 +370,16 @@ async fn network_connect(
     options: &MqttOptions,
     network_options: NetworkOptions,
 ) -> Result<Network, ConnectionError> {
+    #[cfg(rumqtt_verif)]
+    if let Some(stream) = crate::verif::connect() {
+        let network = Network::new(
+            stream,
+            options.max_incoming_packet_size,
+            options.max_outgoing_packet_size,
+        );
+        return Ok(network);
+    }
+
     // Process Unix files early, as proxy is not supported for them.
     #[cfg(unix)]
     if matches!(options.transport(), Transport::Unix) {
